@@ -251,7 +251,7 @@ func (s *verifC33Slot) indexStats() (routes, buckets int) {
 
 const verifC33Local = uint64(7)
 
-var verifC33UIDs = []string{"a", "b", "c"}
+var verifC33UIDs = []string{"a", "b"}
 
 type verifC33Harness struct {
 	rt    *rapid.T
@@ -400,6 +400,14 @@ func (h *verifC33Harness) seqNear(t *rapid.T, hs uint16, id verifC33ID) uint64 {
 // knownIdentity prefers identities that are active / tombstoned in the slot.
 func (h *verifC33Harness) knownIdentity(t *rapid.T, hs uint16) verifC33ID {
 	s := h.m.slots[hs]
+	if s != nil && len(s.pending) > 0 && rapid.IntRange(0, 5).Draw(t, "pendingID") == 0 {
+		var ids []verifC33ID
+		for _, p := range s.pending {
+			ids = append(ids, verifC33IDOf(p.route))
+		}
+		verifC33SortIDs(ids)
+		return rapid.SampledFrom(ids).Draw(t, "pendingIdentity")
+	}
 	if s != nil && rapid.IntRange(0, 3).Draw(t, "known") > 0 {
 		var ids []verifC33ID
 		for id := range s.ownerSeq {
@@ -437,6 +445,17 @@ func (h *verifC33Harness) noteLate(hs uint16, r Route) {
 }
 
 func (h *verifC33Harness) actions() map[string]func(*rapid.T) {
+	acts := h.baseActions()
+	// rapid picks action names uniformly; aliases make the core operations more frequent
+	acts["register2"] = acts["register"]
+	acts["register3"] = acts["register"]
+	acts["touch2"] = acts["touch"]
+	acts["commitOrAbort2"] = acts["commitOrAbort"]
+	acts["unregister2"] = acts["unregister"]
+	return acts
+}
+
+func (h *verifC33Harness) baseActions() map[string]func(*rapid.T) {
 	return map[string]func(*rapid.T){
 		"become": func(t *rapid.T) {
 			hs := h.hashSlot(t)
@@ -771,7 +790,7 @@ func (h *verifC33Harness) invariant() {
 	h.rt.Helper()
 	var groups []EndpointLookupGroup
 	var groupWant [][]Route // nil entry = fenced
-	order := []string{"c", "a", "b", "a"}
+	order := []string{"b", "zz", "a", "b"}
 	wantActive := 0
 	wantBySlot := map[uint16]int{}
 	wantIdxRoutes, wantIdxBuckets := 0, 0
